@@ -254,7 +254,7 @@ def run_scenario_kind(sc, kind, shard, nshard, tier, double=False):
                     if not inj.fired:
                         res.labels["fault-not-reached"] += 1
                         continue
-                    vio = judge(wi, sc, pre, fk, outcome, exc, sti, inj)
+                    vio = judge(wi, sc, pre, fk, outcome, exc, sti, inj, failed_handle=t if outcome == "raise" else None)
                     if wi.kind == "local":
                         import shutil
 
@@ -265,7 +265,7 @@ def run_scenario_kind(sc, kind, shard, nshard, tier, double=False):
     return res
 
 
-def judge(w, sc, pre, fk, outcome, exc, st, inj):
+def judge(w, sc, pre, fk, outcome, exc, st, inj, failed_handle=None):
     from datashard import AmbiguousCommitError
 
     interrupt = fk in ("ki", "se")
@@ -296,22 +296,36 @@ def judge(w, sc, pre, fk, outcome, exc, st, inj):
     else:
         if w.kind != "local":
             w.process_exit()  # a lock whose release failed self-heals by lease expiry
+    before_rows = current_rows(v)
+    before_files = set(current_snapshot(v)["files"]) if current_snapshot(v) else set()
+    extra = []
+    if not interrupt and failed_handle is not None:
+        # the handle that experienced the failure lives on in this process: it must stay usable too
+        try:
+            lp = failed_handle.metadata_manager.lock_provider
+            if hasattr(lp, "lock"):
+                lp.lock.timeout = 1.0
+            failed_handle.append_records([{"k": 901, "s": "same-handle"}])
+            extra = [{"k": 901, "s": "same-handle"}]
+            got0 = rows_multiset(failed_handle.scan())
+            if got0 != before_rows + rows_multiset(extra):
+                return (f"{tag}/same-handle-follow-up-rows-wrong/{sc['op']}", f"append+scan through the handle that failed gave {sum(got0.values())} rows, expected {sum(before_rows.values()) + 1}")
+        except BaseException as e:  # noqa
+            return (f"{tag}/same-handle-unusable-afterwards/{type(e).__name__}", f"follow-up append/scan through the SAME handle failed: {type(e).__name__}: {str(e)[:100]}")
     try:
         t2 = w.open()
         lp = t2.metadata_manager.lock_provider
         if hasattr(lp, "lock"):
             lp.lock.timeout = 1.0
-        before_rows = current_rows(v)
-        before_files = set(current_snapshot(v)["files"]) if current_snapshot(v) else set()
         t2.append_records([{"k": 900, "s": "after"}])
         got = rows_multiset(w.open().scan())
     except BaseException as e:  # noqa
         return (f"{tag}/not-writable-afterwards/{type(e).__name__}", f"follow-up append/scan failed: {type(e).__name__}: {str(e)[:100]}")
-    if got != before_rows + rows_multiset([{"k": 900, "s": "after"}]):
-        return (f"{tag}/follow-up-rows-wrong/{sc['op']}", f"after the follow-up append the table has {sum(got.values())} rows, expected {sum(before_rows.values()) + 1}")
+    if got != before_rows + rows_multiset([{"k": 900, "s": "after"}] + extra):
+        return (f"{tag}/follow-up-rows-wrong/{sc['op']}", f"after the follow-up append the table has {sum(got.values())} rows, expected {sum(before_rows.values()) + 1 + len(extra)}")
     v2 = read_view(w.fs())
     files2 = set(current_snapshot(v2)["files"])
-    if len(files2 - before_files) != 1 or (before_files - files2):
+    if len(files2 - before_files) != 1 + len(extra) or (before_files - files2):
         return (f"{tag}/uncommitted-files-reachable/{sc['op']}", f"follow-up snapshot files {sorted(files2)} vs state before {sorted(before_files)}")
     return None
 
@@ -389,5 +403,5 @@ def replay(case):
             st.handler = None
             if not inj.fired:
                 return []
-            vio = judge(base, sc, pre, case["fault"], outcome, exc, st, inj)
+            vio = judge(base, sc, pre, case["fault"], outcome, exc, st, inj, failed_handle=t if outcome == "raise" else None)
         return [{"bucket": vio[0], "what": vio[1]}] if vio else []
